@@ -536,7 +536,7 @@ impl Prop for C08 {
     }
     fn cases(&self, tier: Tier) -> u64 {
         match tier {
-            Tier::Quick => 1200,
+            Tier::Quick => 6000,
             Tier::Thorough => 40_000,
         }
     }
